@@ -31,7 +31,10 @@ FEATURES = {
             "uni_indent", "kw_return", "kw_break", "ident_comment"],
     "post": ["semi", "paren", "comma", "brace", "eof"],
     "ref": ["none", "valid", "nearmiss"],
+    # layout between the macro name, the `!` and the opening bracket (same token sequence for rustc and for the grammar)
+    "bang": ["tight", "tight", "tight", "sp", "cm", "sp_after", "nl", "both"],
 }
+BANG_SPACED = ["sp", "cm", "nl", "both"]
 # values that an *open* finding names as a cross-statement hazard or that currently fail: generated only
 # in dedicated small files (DESIGN 6 "Cascades").
 HAZARD = {
@@ -126,7 +129,11 @@ def build_stmt(feat, marker, rnd, macros=None, eol="\n", ref_id=None, kv_ref=Non
     path = name if feat["path"] == "bare" else "%s::%s" % (mod, name)
     L = lambda: lay(feat["lay"], rnd, eol)
     parts = []   # (tag, text)
-    parts.append(("path", path + "!"))
+    bang = feat.get("bang", "tight")
+    parts.append(("path", path))
+    parts.append(("lay", {"sp": " ", "cm": " /* level */ ", "nl": eol + "        ", "both": "  "}.get(bang, "")))
+    parts.append(("bang", "!"))
+    parts.append(("lay", {"sp_after": " ", "both": " "}.get(bang, "")))
     parts.append(("paren", "("))
     parts.append(("lay", L()))
     tgt = feat["target"]
@@ -168,6 +175,9 @@ def build_stmt(feat, marker, rnd, macros=None, eol="\n", ref_id=None, kv_ref=Non
     if feat["ref"] == "valid":
         ref_msg = ref_id if ref_id is not None else rnd.choice([0, 1, 7, 4294967295, rnd.randrange(1, 100000)])
         pref = ("[ref: %d] " % ref_msg) if (rnd.random() > 0.15 or ref_msg > 99999) else ("[ref: %0*d] " % (rnd.choice([2, 5, 10]), ref_msg))
+        if rnd.random() < 0.12:
+            # a hand-written reference need not be followed by the space breadlog itself writes (documented regex: no space)
+            pref = pref[:-1] + rnd.choice(["", "", ":", "\\t", "\\n", "-", ".", ","])
     elif feat["ref"] == "nearmiss":
         pref = rnd.choice(["[ref:12] ", "[Ref: 12] ", "[ref: 12 ] ", " [ref: 12] ", "[ref: 99999999999] ",
                            "[ref: 4294967296] ", "[ref: -1] ", "[ref: 1x] ", "ref: 12 ", "[ref:  12] ", "[ref: ] ",
@@ -392,7 +402,7 @@ def random_feat(rnd, hazards=False, structured=False):
 
 
 NEUTRAL = {"macro": 0, "path": "bare", "target": "none", "nkv": 0, "kv0": "ident", "kv1": "ident", "kv2": "field", "msg": "plain", "trail": "none",
-           "lay": "tight", "pre": "indent", "post": "semi", "ref": "none"}
+           "lay": "tight", "pre": "indent", "post": "semi", "ref": "none", "bang": "tight"}
 
 
 def filler(rnd, eol):
